@@ -150,6 +150,34 @@ fn differs_below_root(a: &Schema, b: &Schema) -> bool {
     ka != kb
 }
 
+/// re-supply family: large documents (an element seen n times in total, n around counter widths) supplied, supplied
+/// again, followed by an element-less input and a third supply; the schema must be the reference inference after the
+/// first step and must not change afterwards
+fn resupply_family(n: usize) -> Result<(), String> {
+    for docs in super::smallscope::threshold_family(n).into_iter().filter(|d| d.len() == 1) {
+        let bytes = crate::xmlser::canonical(&docs[0]).into_bytes();
+        let reference = bound_form(&infer(&docs[0].name, &[&docs[0]]), true);
+        let cfg = ReaderCfg::default_slice();
+        let mut root: Option<Element<String>> = None;
+        for (si, input) in [&bytes[..], &bytes[..], &b"<!-- nothing -->"[..], &bytes[..]].iter().enumerate() {
+            let r = sut::parse_with(input, root.take(), &cfg).map_err(|e| format!("step {} was rejected: {}", si + 1, e))?;
+            let (_src, got) = render_schema(&r).map_err(|f| f.msg)?;
+            if got != reference {
+                let head: String = String::from_utf8_lossy(&bytes).chars().take(120).collect();
+                return Err(format!(
+                    "after step {} of [D, D again, element-less input, D again] with D = {}... ({} bytes) the schema is not the one inferred from D: {}",
+                    si + 1,
+                    head,
+                    bytes.len(),
+                    compare_schema_norm(&reference, &got)
+                ));
+            }
+            root = Some(r);
+        }
+    }
+    Ok(())
+}
+
 impl Property for C06 {
     fn id(&self) -> &'static str {
         "C06"
@@ -269,8 +297,28 @@ impl Property for C06 {
         }
         Ok(())
     }
+    fn extra(&self, tier: Tier, _seed: u64, st: &mut Stats) -> Result<(), (Failure, Value)> {
+        let ns: &[usize] = match tier {
+            Tier::Quick => &[1, 2, 3, 255, 256, 257, 65535, 65536, 65537],
+            Tier::Thorough => &[1, 2, 3, 127, 128, 129, 255, 256, 257, 1023, 1024, 1025, 32767, 32768, 32769, 65535, 65536, 65537, 131073],
+        };
+        for n in ns {
+            st.evaluations += 6;
+            st.add("resupply_family.histories", 6);
+            if let Err(e) = resupply_family(*n) {
+                return Err((Failure::new(format!("re-supply family n={}: {}", n, e)), json!({"resupply_n": n})));
+            }
+        }
+        Ok(())
+    }
+    fn replay_custom(&self, payload: &Value) -> Result<(), Failure> {
+        match payload["resupply_n"].as_u64() {
+            Some(n) => resupply_family(n as usize).map_err(|e| Failure::new(format!("re-supply family n={}: {}", n, e))),
+            None => Err(Failure::new("unknown replay payload")),
+        }
+    }
     fn rule(&self) -> String {
-        "tape-decoded histories parse(D1), extend(...) over 1..5 generated documents with members supplied again, element-less inputs interleaved (empty, blanks, comment-only, declaration-only, text-only), a random permutation of the members, and (one history in three) a damaged member at the end. After every step the schema abstraction of the rendering (fields, optionality, multiplicity, text flags, nesting; order/identifiers/struct names ignored) must equal the reference inference over the union of the documents supplied so far and be monotone w.r.t. the previous step; the permuted history must end in the same schema; a tail on which an independent reader pass finds an error must yield Err. Non-trivial = k >= 2 and the later documents change the schema below the root; distinct by hash of documents and permutation.".into()
+        "tape-decoded histories parse(D1), extend(...) over 1..5 generated documents with members supplied again, element-less inputs interleaved (empty, blanks, comment-only, declaration-only, text-only), a random permutation of the members, and (one history in three) a damaged member at the end. After every step the schema abstraction of the rendering (fields, optionality, multiplicity, text flags, nesting; order/identifiers/struct names ignored) must equal the reference inference over the union of the documents supplied so far and be monotone w.r.t. the previous step; the permuted history must end in the same schema; a tail on which an independent reader pass finds an error must yield Err. A re-supply family adds large single documents (an element seen n times in total, n around 256 and 65536; thorough also 128, 1024, 32768, 131073) supplied, supplied again, followed by an element-less input and a third supply. Non-trivial = k >= 2 and the later documents change the schema below the root; distinct by hash of documents and permutation.".into()
     }
     fn assumptions(&self) -> Vec<String> {
         vec![
